@@ -24,13 +24,19 @@ let run () =
            let obs = List.filter (fun t -> t <> "" && not (String.length t > 5 && String.sub t 0 5 = "used=")) (String.split_on_char ' ' rhs) in
            let p = if period = N0 then n_of_int 1 else period in
            let bound = N.add k p in
+           let ops = if String.length ops > 0 && ops.[0] = 'A' then String.sub ops 1 (String.length ops - 1) else ops in
            let pre = if String.length ops > 0 && (ops.[0] = 'S' || ops.[0] = 'P') then 1 else 0 in
            let st = ref (Some ((N.add (n_of_string initial) (n_of_int pre), n_of_string c0), ds)) in
            let prev = ref (N.add (n_of_string initial) (n_of_int pre)) in
            let ok = ref true and any_fired = ref false in
            let started_within = N.leb (n_of_string initial) k in
            List.iter (fun tok ->
-               match String.split_on_char ':' tok with
+               match (match String.split_on_char ':' tok with
+                   | [e; cnt; present] ->
+                     (* maintenance runs BEFORE the write's own insertion: the key just written is there *)
+                     if present = "0" then begin incr bound_viol; Printf.printf "WINDOW %s\n" line end;
+                     [e; cnt]
+                   | l -> l) with
                | [e; cnt] ->
                  (match !st with
                   | None -> ()
